@@ -465,9 +465,49 @@ func runC07(c *Ctx) {
 		}
 		return to == from.Succs[1]
 	}
+	// helpersIn: fn and the loader-only helpers it hands part of its work to — reached through calls whose error result
+	// is tested; the chain of those calls is kept so that each link can be checked for skippability
+	type place struct {
+		fn    *ssa.Function
+		chain []ssa.CallInstruction
+	}
+	lo := loaderOnly(p)
+	helpersIn := func(fn *ssa.Function) []place {
+		out := []place{{fn, nil}}
+		seen := map[*ssa.Function]bool{fn: true}
+		for i := 0; i < len(out) && len(out) < 12; i++ {
+			cur := out[i]
+			allInstrs(cur.fn, func(in ssa.Instruction) {
+				call, ok := in.(*ssa.Call)
+				if !ok {
+					return
+				}
+				h := call.Call.StaticCallee()
+				if h == nil || seen[h] || !lo[h] || len(h.Blocks) == 0 {
+					return
+				}
+				switch h {
+				case m.vtref, m.vargs, m.vdirs, m.vname, m.vdef, m.vdir, m.vimpl:
+					return // the checks themselves are not helpers of their callers
+				}
+				res := h.Signature.Results()
+				if res.Len() == 0 || !isGqlErrorPtr(res.At(res.Len()-1).Type()) {
+					return
+				}
+				seen[h] = true
+				out = append(out, place{h, append(append([]ssa.CallInstruction{}, cur.chain...), call)})
+			})
+		}
+		return out
+	}
 	for _, w := range wants {
 		found := 0
+		var places []place
 		for _, fn := range w.in {
+			places = append(places, helpersIn(fn)...)
+		}
+		for _, pl := range places {
+			fn := pl.fn
 			for _, ci := range callsTo([]*ssa.Function{fn}, w.callee) {
 				args := ci.Common().Args
 				if !loadOfField(args[w.argIdx], w.st, w.fld) {
@@ -516,11 +556,21 @@ func runC07(c *Ctx) {
 					}
 					key += " [" + rootName(args[w.argIdx]) + "]"
 				}
-				if canSkip(ci, exempt) {
+				skippable := canSkip(ci, exempt)
+				dropped := !errResultUsed(ci.(*ssa.Call), 1)
+				for _, link := range pl.chain {
+					if canSkip(link, exempt) {
+						skippable = true
+					}
+					if !errResultUsed(link.(*ssa.Call), 1) {
+						dropped = true
+					}
+				}
+				if skippable {
 					r2.Fail(ci.Pos(), p.FuncName(fn), key+" can be skipped", fmt.Sprintf("a success path (or the next loop iteration) is reachable without this check: some %s would not be validated", w.what))
 					continue
 				}
-				if !errResultUsed(ci.(*ssa.Call), 1) {
+				if dropped {
 					r2.Fail(ci.Pos(), p.FuncName(fn), key+" result dropped", "the result of the check is not tested")
 					continue
 				}
